@@ -655,7 +655,13 @@ def queries(draw, schema: Schema, feat: Features = None, fuel_range=(1, 3), extr
         e = g.newvar([], "e")
         os_ = g.objseq([(e, TEvt())], fuel - 1)
         j = g.newvar([], "j")
+        # recorded finding: a 2-D column in a per-object row is rejected ("Could not find fill node") or misplaced
+        saved2d = feat.seq2d
+        if saved2d:
+            g.excluded["2D-column-in-per-object-row"] = g.excluded.get("2D-column-in-per-object-row", 0) + 1
+        g.f.seq2d = False
         body, cols = g.row([(j, TObj(os_[1]))], fuel, ncols, form)
+        g.f.seq2d = saved2d
         if form == "bare" and isinstance(cols[0][1], TSeq):
             # recorded finding: a bare sequence-valued row per object is filled per inner element
             g.excluded["per-object-bare-sequence-row"] = g.excluded.get("per-object-bare-sequence-row", 0) + 1
